@@ -3,6 +3,7 @@ import ScsiVerif.Model.Compat
 import ScsiVerif.Std.T10
 import ScsiVerif.Model.Xfer
 import ScsiVerif.Model.Guards
+import ScsiVerif.Model.Facade
 import ScsiVerif.Gen.Commands
 import ScsiVerif.Gen.Opcodes
 import ScsiVerif.Gen.Tables
@@ -120,6 +121,13 @@ def cmdOp (toks : List String) : Option String :=
     | some op => match Guards.prInDispatch op.sas n with
       | .ok c => pure ("ok " ++ c)
       | .error e => pure (showErr e)
+  -- facaderun <withUnmarshall 0|1> <construct ok|err> <device ok|err> <unmarshall ok|err>
+  | ["facaderun", w, c, d, u] => do
+    let f : String → Except Conv.PyErr Unit := fun x => if x == "ok" then .ok () else .error .valueError
+    let r := Facade.run (w == "1") (f c) (f d) (f u)
+    let ev : Facade.Ev → String := fun | .construct => "c" | .execute => "e" | .unmarshall => "u" | .ret => "r"
+    pure ("ok execs=" ++ toString (Facade.executes r) ++ " trace=" ++ ",".intercalate (r.trace.map ev) ++ " " ++
+      (match r.outcome with | .returned => "returned" | .raised _ => "raised"))
   | ["t10op", name] => pure (match Std.lookup Std.t10Opcodes name with | some v => "ok " ++ toString v | none => "none")
   | ["t10sa", name] => pure (match Std.lookup Std.t10ServiceActions name with | some v => "ok " ++ toString v | none => "none")
   | ["samstatus", name] => pure (match Std.lookup Std.samStatus name with | some v => "ok " ++ toString v | none => "none")
